@@ -4,6 +4,7 @@ import (
 	"fmt"
 	"sort"
 	"strconv"
+	"strings"
 )
 
 // Generators of pub scenarios, shared by the pub properties (C02..C11, C16, C17, C20).
@@ -229,6 +230,12 @@ func famGet(g *sgen, i int) J {
 		jmap(w["store"])[local(path)] = v
 		if g.r.chance(10) {
 			delete(jmap(w["store"]), local(path))
+			w["getMissing"] = "nil"
+		}
+		if strings.HasSuffix(path, "/") {
+			// nothing is stored under the id with the slash (the value lives under the one without): not found
+			delete(jmap(w["store"]), local(path))
+			jmap(w["store"])[local("/notes/2")] = v
 			w["getMissing"] = "nil"
 		}
 	}
@@ -818,7 +825,7 @@ func famForward(g *sgen, i int) J {
 		} else if g.r.chance(25) {
 			// the link sits behind a sibling that cannot be fetched (gone / not JSON / unknown type): that sibling is
 			// skipped, the link is still followed
-			next = []interface{}{g.r.pick([]string{remote("/gone"), remote("/garbage"), remote("/unknown")}), id}
+			next = []interface{}{g.r.pick([]string{remote("/gone"), remote("/garbage"), remote("/unknown"), remote("/notype")}), id}
 		} else {
 			next = id
 		}
